@@ -20,9 +20,9 @@ type c14Group[P any] struct {
 	neg     func(P) P
 	eq      func(P, P) bool
 	isid    func(P) bool
-	smul    func(P, *big.Int) P        // through the Scalar type (k is reduced mod n)
-	smulRaw func(P, []byte) P          // aimpl.ScalarMulLowLevel on raw little-endian bytes
-	baseMul func(*big.Int) P           // nil if the type has none
+	smul    func(P, *big.Int) P // through the Scalar type (k is reduced mod n)
+	smulRaw func(P, []byte) P   // aimpl.ScalarMulLowLevel on raw little-endian bytes
+	baseMul func(*big.Int) P    // nil if the type has none
 	msm     func([]*big.Int, []P) (P, error)
 	extra   []P // exceptional points specific to the curve (small order)
 	// window stream (c14_window.go)
